@@ -2,3 +2,4 @@ import AsphaltModel.Basic
 import AsphaltModel.Config
 import AsphaltModel.Context
 import AsphaltModel.Signal
+import AsphaltModel.Startup
